@@ -147,11 +147,15 @@ def spec_call(ex, st, e, cx, k):
         v = ex.pure(st, e.args[0], cx)
         if v.ty.kind == 'opt':
             v = SV(v.ty.args[0], v.z)
+        raise VCError('content() is no longer supported: use elems(l) / len(l)')
+    if nm == 'elems':
+        # elems(list): its element array (index -> element) as a math value
+        v = ex.pure(st, e.args[0], cx)
+        if v.ty.kind == 'opt':
+            v = SV(v.ty.args[0], v.z)
         if v.ty.kind == 'list':
-            return k(st, SV(T.seq(v.ty.args[0]), ex.list_content(st, v)))
-        if v.ty.kind == 'seq':
-            return k(st, v)
-        raise VCError('content() of a non-list')
+            return k(st, SV(T.Ty('arr', v.ty.args[0]), ex.list_arr(st, v)))
+        raise VCError('elems() of a non-list')
     if nm == 'domain':
         v = ex.pure(st, e.args[0], cx)
         return k(st, SV(T.mset(v.ty.args[0]), ex.dict_dom(st, v)))
@@ -171,6 +175,13 @@ def spec_call(ex, st, e, cx, k):
         vars_, heap_ = st.snaps['old']
         al = heap_.get('alloc', ex.heap_get(st.copy(heap={}), 'alloc', z3.ArraySort(z3.IntSort(), z3.BoolSort())))
         return k(st, SV(BOOL, z3.Not(z3.Select(al, v.z))))
+    if nm == 'tb_byte':
+        u, n_, little, j = [ex.pure(st, x, cx) for x in e.args]
+        tb = ex.uf('tb_byte', z3.IntSort(), z3.IntSort(), z3.BoolSort(), z3.IntSort(), z3.IntSort())
+        return k(st, SV(INT, tb(u.z, n_.z, ex.truth(st, little), j.z)))
+    if nm == 'store':
+        a, i, v = [ex.pure(st, x, cx) for x in e.args]
+        return k(st, SV(a.ty, z3.Store(a.z, ex.coerce(i, INT).z, ex.coerce(v, a.ty.args[0]).z)))
     if nm == 'seq_empty':
         ty = ex.tenv.parse(e.args[0].value)
         return k(st, SV(T.seq(ty), z3.Empty(z3.SeqSort(T.sort_of(ty)))))
@@ -227,22 +238,28 @@ def apply_spec(ex, st, nm, args, cx):
         # recursive spec function -> z3 RecFunction over its declared signature (pure value arguments only)
         sig = [ex.tenv.parse(s) for s in meta['sig']]
         if nm not in ex._spec_rec:
-            f = z3.RecFunction('spec_' + nm, *[T.sort_of(t) for t in sig])
+            from . import inst
+            f = z3.Function('spec_' + nm, *[T.sort_of(t) for t in sig])
             ex._spec_rec[nm] = (f, sig)
             formals = [SV(t, z3.Const(f'{p}!f_{nm}', T.sort_of(t))) for p, t in zip(params, sig[:-1])]
             sub = cx_with_vars(Cx(None, spec=True), dict(zip(params, formals)))
             sub.module = None
             body = spec_body(ex, State(), tree, sub)
             body = ex.coerce(body, sig[-1])
-            z3.RecAddDefinition(f, [a.z for a in formals], body.z)
+            # uninterpreted symbol + side definition, unfolded explicitly by pyvc.inst at the terms that occur
+            inst.define(f, [a.z for a in formals], body.z)
         f, sig = ex._spec_rec[nm]
         zs = [ex.coerce(a, t).z for a, t in zip(args, sig[:-1])]
         return SV(sig[-1], f(*zs))
     if meta.get('uninterpreted'):
         sig = [ex.tenv.parse(s) for s in meta['sig']]
-        f = ex.uf('spec_' + nm, *[T.sort_of(t) for t in sig])
         zs = [ex.coerce(a, t).z for a, t in zip(args, sig[:-1])]
-        return SV(sig[-1], f(*zs))
+        # the heap components the abstracted computation may read are explicit arguments,
+        # so two applications agree only when those components agree
+        hz = [ex.heap_get(st, key, srt) for key, srt in heap_read_keys(ex, meta.get('heap_reads', []))]
+        sorts = [T.sort_of(t) for t in sig[:-1]] + [h.sort() for h in hz] + [T.sort_of(sig[-1])]
+        f = ex.uf('spec_' + nm, *sorts)
+        return SV(sig[-1], f(*(zs + hz)))
     sub = cx_with_vars(cx, dict(zip(params, args)))
     # spec functions see the heap of the calling state but only their own parameters
     return spec_body(ex, st.copy(vars={}), tree, sub)
@@ -445,10 +462,9 @@ def apply_modifies(ex, st, targets, cx_spec, hint='mod'):
 def havoc_content(ex, st, obj, hint):
     t = obj.ty
     if t.kind == 'list':
-        key = ex.lkey(t.args[0])
-        srt = z3.ArraySort(z3.IntSort(), z3.SeqSort(T.sort_of(t.args[0])))
-        arr = ex.heap_get(st, key, srt)
-        return st.setheap(key, z3.Store(arr, obj.z, ex.fresh_z(z3.SeqSort(T.sort_of(t.args[0])), hint + '_cnt')))
+        n = ex.fresh_z(z3.IntSort(), hint + '_len')
+        a = ex.fresh_z(z3.ArraySort(z3.IntSort(), T.sort_of(t.args[0])), hint + '_arr')
+        return ex.set_list(st, obj, n, a).assume(n >= 0)
     if t.kind == 'dict':
         dk, ds, vk, vs = ex.dkeys(t)
         ks, vsrt = T.sort_of(t.args[0]), T.sort_of(t.args[1])
@@ -625,3 +641,31 @@ def builtin_function(ex, st, nm, e, cx, k):
 def module_function(ex, st, mod, attr, e, cx, k):
     from .methods import module_fn
     return module_fn(ex, st, mod, attr, e, cx, k)
+
+
+def heap_read_keys(ex, reads):
+    out = []
+    for r in reads:
+        if '[' in r:
+            ty = ex.tenv.parse(r)
+            if ty.kind == 'dict':
+                dk, ds, vk, vs = ex.dkeys(ty)
+                out += [(dk, ds), (vk, vs)]
+            elif ty.kind == 'list':
+                out.append((ex.lkey_of(ty), ex.lsort(ty.args[0])))
+                out.append((ex.lenkey_of(ty), z3.ArraySort(z3.IntSort(), z3.IntSort())))
+            elif ty.kind == 'set':
+                out.append(ex.skey(ty.args[0]))
+            else:
+                raise VCError(f'heap_reads entry {r}')
+        else:
+            cname, fname = r.split('.')
+            ft = ex.field_type(cname, fname)
+            out.append((ex.fkey(fname, ft), z3.ArraySort(z3.IntSort(), T.sort_of(ft))))
+    seen = set()
+    res = []
+    for k_, s_ in out:
+        if k_ not in seen:
+            seen.add(k_)
+            res.append((k_, s_))
+    return res
